@@ -256,3 +256,85 @@ class _PyplotX:
 
 
 pyplotx = _PyplotX()
+
+
+# ------------------------------------------------------------------------------------------------
+class SymDoc(str):
+    """the text of an XML document handed to ET.parse in place of a file name"""
+
+
+class _SymStr(str):
+    def split(self, *a):
+        from .npx import SymTok
+        return [SymTok(t) if t.startswith('@') else t for t in str.split(self, *a)]
+
+
+class _El:
+    """read-only view of a real xml.etree Element: attribute text holding '@tokens' keeps its tokens through split()"""
+
+    def __init__(self, el):
+        self._el = el
+
+    @property
+    def tag(self):
+        return self._el.tag
+
+    @property
+    def text(self):
+        return self._el.text
+
+    @property
+    def attrib(self):
+        return self._el.attrib
+
+    def get(self, name, default=None):
+        from .npx import SymTok
+        v = self._el.get(name, default)
+        if isinstance(v, str) and '@' in v:
+            toks = v.split()
+            if len(toks) == 1:
+                return SymTok(toks[0])
+            return _SymStr(v)
+        return v
+
+    def __iter__(self):
+        return iter([_El(c) for c in self._el])
+
+    def __len__(self):
+        return len(self._el)
+
+    def find(self, path):
+        r = self._el.find(path)
+        return None if r is None else _El(r)
+
+    def findall(self, path):
+        return [_El(c) for c in self._el.findall(path)]
+
+
+class _Tree:
+    def __init__(self, root):
+        self._root = root
+
+    def getroot(self):
+        return _El(self._root)
+
+
+class _ETX:
+    """xml.etree.ElementTree: the real parser; parse() also accepts the document text itself (SymDoc)"""
+
+    def parse(self, source, *a, **k):
+        import xml.etree.ElementTree as _ET
+        if isinstance(source, SymDoc):
+            return _Tree(_ET.fromstring(str(source)))
+        return _Tree(_ET.parse(source, *a, **k).getroot())
+
+    def fromstring(self, text, *a, **k):
+        import xml.etree.ElementTree as _ET
+        return _El(_ET.fromstring(text, *a, **k))
+
+    def __getattr__(self, name):
+        import xml.etree.ElementTree as _ET
+        return getattr(_ET, name)
+
+
+etx = _ETX()
